@@ -40,7 +40,15 @@ def plan(tier):
                 pl.units.append(U("D.reply.%s.%s.%s" % (st, code, text), "contracts.replies", "h_status_reply", (st, code, text),
                                   setup=("contracts.reader", "setup_summaries"), native_ok=True))
 
+    # the client's own belief about the session (authenticated) agrees with the server's view of the CURRENT connection after
+    # every public call, from every state: the class invariant of C10, needed here for "a legal order of commands"
+    for m in client.public_methods():
+        pl.units.append(U("V.%s" % m, "contracts.typestate", "h_public_method", (m,), setup=("contracts.typestate", "setup"),
+                          replay=("contracts.client_replay", "replay_typestate")))
+
     def lf(u, label):
+        if u.uid.startswith("V."):
+            return label.startswith(("A1.", "A2."))
         return label in ("W3.everything-sent-before-the-single-read", "W3.one-sendall-per-line", "S3.exactly-one-command",
                          "S4.reader-stops-exactly-at-the-end-of-the-reply") \
             or label.startswith("R3.") or ".loop0." in label
@@ -57,7 +65,9 @@ def plan(tier):
         "Deductive: every script operation issues exactly one __send_command, __send_command writes one command and "
         "then performs exactly one response read, and that read (__read_response over the verified readers' contracts) "
         "stops exactly at the status line, after reading every announced literal in full (so requests and replies are paired one to one as long as each read "
-        "consumes exactly one reply); D -- on 40 OK/NO reply shapes with symbolic atoms and texts, followed by arbitrary later "
+        "consumes exactly one reply); V -- after every public call, from every state, `authenticated` implies that AUTHENTICATE "
+        "was answered OK on the current connection, and script verbs are sent only then (the server only receives commands in a "
+        "legal order); D -- on 40 OK/NO reply shapes with symbolic atoms and texts, followed by arbitrary later "
         "bytes, the real reader (loops summarised by their C05 contracts) leaves exactly the later bytes unread whenever it "
         "returns (the OK-with-literal-text shapes fail: listed finding). Bounded (labelled bounded): that each read stops at the end of its reply, over the "
         "status-reply pool with a content-returning sentinel; and seeded random sessions of 6 operations against the "
